@@ -119,3 +119,29 @@ Theorem C08_printed_time_hours_refuted :
   let ns := 35 * 60 * 1000000000 in fmt_time ns = Some (1, 11, 4) /\ ok_cell ns (fmt_time ns) = false.
 Proof. exact fmt_time_hours_refuted. Qed.
 Print Assumptions C08_printed_time_hours_refuted.
+
+(* Outside the guard "data starts at depth 0, no LOST" the statements fail for the code as it is: *)
+
+(* inherited frames (fork child): an outermost invocation is classified recursive; Total 0 < Self 1000 *)
+Theorem C08_inherited_frames_refuted :
+  exists n, find_node (report child_case) 2 = Some n
+            /\ n_call n = 1 /\ sum (n_total n) = 0 /\ recs (n_total n) = 1000 /\ sum (n_self n) = 1000.
+Proof. exact inherited_frames_refuted. Qed.
+Print Assumptions C08_inherited_frames_refuted.
+
+(* a LOST marker after such a start yields a duration of 2^64 - 1499 ns *)
+Theorem C08_lost_after_inherited_refuted :
+  exists n, find_node (report lost_case) 2 = Some n /\ smax (n_total n) = M64 - 1499.
+Proof. exact lost_after_inherited_refuted. Qed.
+Print Assumptions C08_lost_after_inherited_refuted.
+
+(* report --task: calls open at the end last until the last EXIT only (200 ns instead of 8000 ns) and a
+   task without any EXIT has no line *)
+Theorem C08_task_mode_open_refuted :
+  let killed := [mkrec ENTRY 0 10 1000; mkrec ENTRY 1 30 1100; mkrec EXIT 1 30 1200; mkrec ENTRY 1 20 1300;
+                 mkrec ENTRY 2 30 9000] in
+  task_line 1024 killed = (200, 2)
+  /\ sumN (map w_self (task_rows 1024 killed)) = 8000
+  /\ task_line 1024 [mkrec ENTRY 0 10 1000; mkrec ENTRY 1 20 5000] = (0, 0).
+Proof. exact task_mode_open_refuted. Qed.
+Print Assumptions C08_task_mode_open_refuted.
